@@ -205,7 +205,12 @@ fn final_shape(p: &StdPair, strict: bool) -> Vec<String> {
         v.push(format!("server remote streams opened {:?}", sp.streams.next_remote));
         v.push(format!("server data_recvd {}", sp.streams.data_recvd));
 
-        v.push(format!("server streams seen by app {:?}", s.app.obs.rx.iter().map(|(k, r)| (*k, (!r.stopped_by_us && r.reset.is_none()).then_some(r.bytes), r.fin, r.reset)).collect::<Vec<_>>()));
+        // (whether a stream the server application means to stop after N bytes is stopped, or read to
+        // its end because everything arrived at once, depends on loss and timing: compared only in
+        // fault-free runs)
+        if strict || s.app.plan.stop.is_none() {
+            v.push(format!("server streams seen by app {:?}", s.app.obs.rx.iter().map(|(k, r)| (*k, (!r.stopped_by_us && r.reset.is_none()).then_some(r.bytes), r.fin, r.reset)).collect::<Vec<_>>()));
+        }
         if strict {
             v.push(format!("server datagrams seen by app {:?}", s.app.obs.dgrams_rx.iter().map(|d| d.len()).collect::<Vec<_>>()));
         }
